@@ -418,6 +418,15 @@ func runProperty(w *World, prop, tier, vdir string, start time.Time, writeBaseli
 	}
 	sort.Strings(abs)
 	sort.Strings(undecided)
+	if undecided == nil {
+		undecided = []string{}
+	}
+	if knownHits == nil {
+		knownHits = []string{}
+	}
+	if violNames == nil {
+		violNames = []string{}
+	}
 	assumptions := []string{
 		"int/uint/uintptr are " + strconv.Itoa(IntW) + "-bit; all integer arithmetic is modelled as fixed-width bit-vectors (no mathematical-integer abstraction)",
 		"allocation never fails; slices have at most 2^48 elements; fewer than 2^31 objects are allocated",
